@@ -89,6 +89,7 @@ type Dev struct {
 	Premature bool `json:"premature"` // timer fires while messages are in flight (safety mode)
 	Tick      bool `json:"tick"`      // timed mode: a second passes while messages are in flight (never across an armed deadline)
 	SlowReset bool `json:"slow_reset"` // timed mode: a timer may fire while another node's Reset is still pending
+	NotifyLag bool `json:"notify_lag"` // a new transaction's OnNewTransaction notification reaches one node after the message traffic of that instant
 	Hold      bool `json:"hold"`      // postpone one in-flight message until nothing else is deliverable
 	Stale     bool `json:"stale"`
 	Perm      bool `json:"perm"`
@@ -140,7 +141,9 @@ func (sc *Scenario) finish() *Scenario {
 		}
 	}
 	if sc.FailBlk > 0 {
-		sc.FailBlock = func(node int, h uint32, ok int) bool { return false }
+		sc.FailBlock = func(node int, h uint32, call int) bool {
+			return call <= sc.FailBlk && (len(sc.FailNodes) == 0 || slices.Contains(sc.FailNodes, node))
+		}
 	}
 	return sc
 }
@@ -242,6 +245,8 @@ type World struct {
 
 	start        time.Time
 	newTxDone    int
+	lagNotify    int // id+1 of the node whose OnNewTransaction notification is still pending (0: none)
+	lagSeen      bool // a message has reached that node since the transaction appeared (the notification was outrun)
 	lastNewTx    time.Time
 	newTxPending bool      // a transaction appeared and no proposal has been made since
 	lastProposal time.Time // virtual instant of the latest PrepareRequest broadcast (C16)
@@ -489,7 +494,7 @@ func (w *World) done() bool {
 
 func (n *Node) wantsTimer() bool {
 	c := n.ctx()
-	return n.isValidator() && !c.BlockSent() && n.t.armed && !n.t.consumed && c.ViewNumber < n.sc().MaxView+0 &&
+	return n.isValidator() && n.height < c.BlockIndex && n.t.armed && !n.t.consumed && c.ViewNumber < n.sc().MaxView+0 &&
 		n.t.h == c.BlockIndex && n.t.v == c.ViewNumber
 }
 
@@ -577,6 +582,11 @@ func (w *World) enabled() []Event {
 			}
 		}
 	}
+	if w.lagNotify > 0 && w.lagSeen {
+		// the delayed notification has been outrun by one message: by default it arrives now
+		add(Event{K: "newtx", N: w.lagNotify - 1, A: 2}, !have)
+		have = true
+	}
 	// 3. deliveries, oldest first; held messages only when nothing else is deliverable
 	seen := map[[2]uint64]bool{}
 	anyFree := false
@@ -616,6 +626,11 @@ func (w *World) enabled() []Event {
 		add(e, !have)
 		have = true
 	}
+	if w.lagNotify > 0 && !w.lagSeen {
+		// nothing has reached the node yet: the notification arrives once the traffic of this instant is through (or, as a deviation, in between)
+		add(Event{K: "newtx", N: w.lagNotify - 1, A: 2}, !have)
+		have = true
+	}
 	quiescent := !have
 	onlyResets := resetPending && len(w.net) == 0 && !txOffered
 	// 4. ledger sync of lagging nodes
@@ -651,6 +666,7 @@ func (w *World) enabled() []Event {
 		// a transaction that is due now may enter the pools while the messages of this instant are still in flight
 		if t := w.start.Add(time.Duration(sc.NewTxAt[w.newTxDone]) * time.Millisecond); !t.After(w.now) {
 			alt(Event{K: "newtx", N: 0, P: H(900 + w.newTxDone), A: 1})
+			w.lagVariants(alt)
 		}
 	}
 	if sc.Timed {
@@ -688,6 +704,7 @@ func (w *World) enabled() []Event {
 				t := w.start.Add(time.Duration(sc.NewTxAt[w.newTxDone]) * time.Millisecond)
 				if !found || !t.After(best) {
 					add(Event{K: "newtx", N: 0, P: H(900 + w.newTxDone), A: 1}, !have)
+					w.lagVariants(alt)
 					have = true
 					if found && t.Before(best) {
 						found = false // the timers are not due yet
@@ -890,6 +907,9 @@ func (w *World) apply(e Event) {
 			panic(harnessFault{"replay divergence: deliver of a payload that is not in flight: " + e.String()})
 		}
 		w.got[e.N][e.P] = p
+		if w.lagNotify == e.N+1 {
+			w.lagSeen = true
+		}
 		n.Receive(p)
 	case "hold":
 		ok := false
@@ -967,6 +987,16 @@ func (w *World) apply(e Event) {
 			w.violate("C11", key, n, msg)
 		}
 	case "newtx":
+		if e.A == 2 {
+			if w.lagNotify != e.N+1 {
+				panic(harnessFault{"replay divergence: no delayed notification pending for this node"})
+			}
+			w.lagNotify, w.lagSeen = 0, false
+			if o := w.nodes[e.N]; o.live() {
+				o.NewTxNotify()
+			}
+			break
+		}
 		if e.A == 1 {
 			if w.newTxDone >= len(w.sc.NewTxAt) {
 				panic(harnessFault{"replay divergence: no transaction scheduled"})
@@ -996,9 +1026,12 @@ func (w *World) apply(e Event) {
 			}
 		}
 		for _, o := range w.nodes {
-			if o.live() {
+			if o.live() && o.id != e.B-1 {
 				o.NewTxNotify()
 			}
+		}
+		if e.B > 0 {
+			w.lagNotify = e.B
 		}
 	case "sync":
 		w.syncNode(n)
@@ -1013,9 +1046,13 @@ func (w *World) apply(e Event) {
 	case "skip":
 		// the ledger advanced by two blocks obtained elsewhere (sync); the application re-initialises consensus
 		w.skips++
-		n.height += 2
+		by := uint32(2)
+		if e.A == 1 {
+			by = 1
+		}
+		n.height += by
 		n.tip = H(0x5100 + uint64(n.height))
-		n.tipTS += 2 * uint64(w.sc.TimePerBlock)
+		n.tipTS += uint64(by) * uint64(w.sc.TimePerBlock)
 		n.pendingReset = true
 		n.Reset()
 	default:
@@ -1168,6 +1205,10 @@ func (w *World) key() [2]uint64 {
 		put(uint64(w.now.UnixNano()))
 		put(uint64(w.expiries))
 		put(uint64(w.newTxDone))
+		put(uint64(w.lagNotify))
+		if w.lagSeen {
+			put(7)
+		}
 		if w.newTxPending {
 			put(1)
 		}
@@ -1285,6 +1326,7 @@ func (n *Node) appKey() uint64 {
 		s.u64(uint64(m.preBlockOK))
 		s.u64(uint64(m.preBlockCall))
 		s.u64(uint64(m.blockOK))
+		s.u64(uint64(m.blockCall))
 		s.u64(uint64(m.signCalls))
 		s.u64(uint64(m.setDataCalls))
 		hb := func(mm map[H]bool) {
@@ -1330,4 +1372,16 @@ func (n *Node) appKey() uint64 {
 		}
 	}
 	return s.sum()
+}
+
+// lagVariants offers, for the transaction that is due now, the variants in which one node's notification lags behind.
+func (w *World) lagVariants(alt func(Event)) {
+	if !w.sc.Dev.NotifyLag || w.lagNotify > 0 {
+		return
+	}
+	for _, o := range w.nodes {
+		if o.live() && o.d != nil {
+			alt(Event{K: "newtx", N: 0, P: H(900 + w.newTxDone), A: 1, B: o.id + 1})
+		}
+	}
 }
